@@ -16,7 +16,9 @@ FAMILIES = [
     ("caches", "pack:2 l2:2 l1:1 core:1 pu:1", []),
     ("misc", "pack:2 core:2 pu:2", "MISC"),
     ("io", "pack:2 core:2 pu:2", "IO"),
+    ("offline", "pack:2 core:2 pu:2", "OFFLINE"),       # PUs 1 and 6 offline: the complete cpuset is larger than the cpuset
 ]
+OFFLINE_PUS = (1, 6)
 PRESETS = {"default": [], "keepall": ["filter 0 -1 0"], "structure": ["filter 0 -1 2"]}
 
 IO_SNIPPET = '''<object type="Bridge" gp_index="9001" bridge_type="0-1" bridge_pci="0000:[00-02]">
@@ -82,6 +84,10 @@ def prepass(ctx, exe):
         for o in t["objs"]:
             gps.setdefault(o["type"], []).append(o["gp"])
         info[name] = {"pus": pus, "nodes": nodes, "gps": gps}
+    for name, desc, prefix in FAMILIES:
+        if prefix == "OFFLINE" and name in info:        # the model knows the online PUs only
+            info[name]["pus"] = [p for p in info[name]["pus"] if p not in OFFLINE_PUS]
+            info[name]["nodes"] = {n: [p for p in cs if p not in OFFLINE_PUS] for n, cs in info[name]["nodes"].items()}
     return info
 
 
@@ -93,6 +99,26 @@ def make_io_xml(ctx, name):
         raise vlib.Infra("cannot find Package in exported XML")
     text = text[:m.end()] + IO_SNIPPET + text[m.end():]
     p = ctx.path("fam-%s-io.xml" % name)
+    open(p, "w").write(text)
+    return p
+
+
+def make_offline_xml(ctx, name, off=OFFLINE_PUS):
+    """the family's own XML export where some PUs are offline: their PU objects are gone and their bits are cleared from every cpuset and
+    allowed_cpuset, but kept in the complete cpusets (what the Linux backend reports for offline processors)"""
+    text = open(ctx.path("fam-%s.xml" % name)).read()
+    mask = 0
+    for p in off:
+        text, n = re.subn(r'[ \t]*<object type="PU" os_index="%d"[^>]*/>\n' % p, "", text)
+        if n != 1:
+            raise vlib.Infra("cannot find PU %d in exported XML" % p)
+        mask |= 1 << p
+
+    def clear(m):
+        v = int(m.group(3), 16) & ~mask
+        return "%s%s=\"0x%08x\"" % (m.group(1), m.group(2), v)
+    text = re.sub(r'(\s)(cpuset|allowed_cpuset)="(0x[0-9a-f]+)"', clear, text)
+    p = ctx.path("fam-%s-offline.xml" % name)
     open(p, "w").write(text)
     return p
 
@@ -151,6 +177,8 @@ def family_prefix(ctx, fam, info, preset):
         lines += ["xml 0 " + make_io_xml(ctx, name)]
         lines += PRESETS[preset] if preset != "default" else ["filter 0 -4 0", "filter 0 19 0"]
         lines += ["load 0"]
+    elif prefix == "OFFLINE":
+        lines += ["xml 0 " + make_offline_xml(ctx, name)] + PRESETS[preset] + ["load 0"]
     elif prefix == "MISC":
         lines += ["synthetic 0 " + desc] + (PRESETS[preset] if preset != "default" else []) + ["filter 0 19 0", "load 0"]
         g = info["gps"]
@@ -168,10 +196,10 @@ def run(ctx, replay=None):
     replay_fn = c01.make_replay(ctx, exe)
     if replay:
         text = open(replay).read()
-        m = re.search(r"xml 0 (\S+)/fam-(\w+)-io\.xml", text)
+        m = re.search(r"xml 0 (\S+)/fam-(\w+)-(io|offline)\.xml", text)
         if m:
             prepass(ctx, exe)
-            text = text.replace(m.group(0), "xml 0 " + make_io_xml(ctx, m.group(2)))
+            text = text.replace(m.group(0), "xml 0 " + (make_io_xml if m.group(3) == "io" else make_offline_xml)(ctx, m.group(2)))
         rej = replay_fn(text)
         for r in rej:
             vlib.log("rejected event:", r["line"][:1500])
@@ -184,7 +212,7 @@ def run(ctx, replay=None):
     info = prepass(ctx, exe)
     flagwords = list(range(33))
     behs = []
-    fams = FAMILIES if thorough else [f for f in FAMILIES if f[0] in ("sym", "nested", "misc", "io", "cpuless")]
+    fams = FAMILIES if thorough else [f for f in FAMILIES if f[0] in ("sym", "nested", "misc", "io", "cpuless", "offline")]
     for fam in fams:
         name = fam[0]
         presets = ["default", "keepall", "structure"] if (thorough or name in ("nested",)) else (["structure"] if name == "sym" else ["default"])
@@ -218,7 +246,7 @@ def run(ctx, replay=None):
     rejs = ctx.validate("TraceTopo", tf, nshards=32 if thorough else 16, timeout=3000)
     ctx.handle_rejections(rejs, behs, replay_fn)
     return ctx.finish(
-        rule="for each topology family (symmetric, nested memory, two NUMA, Group level, asymmetric, CPU-less node, caches, Misc objects, I/O subtree) and filter preset, "
+        rule="for each topology family (symmetric, nested memory, two NUMA, Group level, asymmetric, CPU-less node, caches, Misc objects, I/O subtree, offline PUs i.e. complete cpuset larger than cpuset) and filter preset, "
              "TLC enumerates every (flag word 0..32, argument set) pair applied once and (striped) twice from MC_Restrict.tla; each edge is replayed on the rebuilt "
              "library and RestrictRel (TopoOps.tla) is evaluated between the projections before and after. Non-trivial = the behaviour contains at least one restrict call.",
         assumptions=["which of two mergeable levels survives a KEEP_STRUCTURE merge is not asserted", "ENOMEM paths are not driven"],
